@@ -559,18 +559,64 @@ func c16SingleFlight(p *Prog, r *Report) {
 	// registration precedes fetch
 	w2 := findPath(entryPoint(fn), instrIs(fetch), instrIs(reg), nil)
 	r.Check(w2 == nil, "D2-single-flight", key+":register-before-fetch", p.Pos(fetch.Pos()), "the call is registered before fetching", "the fetch function can be invoked without the call having been registered as pending")
-	// after fetch: Done on all paths, pending entry re-examined, cache store only when err == nil
+	// after fetch: Done on all paths, pending entry re-examined, cache store only when err == nil.
+	// The completion may sit in a function literal of Get that is called on every path from the fetch
+	// to a return (a helper with its own `defer mu.Unlock()` ends up there, §1.1): it is then judged
+	// inside that literal, from its entry, with the literal's own lockset.
+	postStart := pointOf(fetch)
+	pfn := fn
+	if done == nil && recheck == nil && store == nil {
+		for _, g := range fn.AnonFuncs {
+			var gcall ssa.Instruction
+			forEachInstr(fn, func(_ *ssa.BasicBlock, _ int, in ssa.Instruction) {
+				if c, ok := in.(*ssa.Call); ok {
+					if mc, isMC := c.Call.Value.(*ssa.MakeClosure); isMC && mc.Fn == ssa.Value(g) {
+						gcall = in
+					} else if c.Call.Value == ssa.Value(g) {
+						gcall = in
+					}
+				}
+			})
+			if gcall == nil || findPath(pointOf(fetch), isReturn, instrIs(gcall), nil) != nil {
+				continue
+			}
+			var d2, s2 ssa.Instruction
+			var r2 *ssa.Lookup
+			forEachInstr(g, func(_ *ssa.BasicBlock, _ int, in ssa.Instruction) {
+				switch x := in.(type) {
+				case *ssa.Lookup:
+					if loadsField(x.X, "RequestCache", "calls") {
+						r2 = x
+					}
+				case *ssa.MapUpdate:
+					if loadsField(x.Map, "RequestCache", "cache") {
+						s2 = in
+					}
+				case *ssa.Call:
+					if rf := refOf(x.Common()); rf.Pkg == "sync" && rf.Recv == "WaitGroup" && rf.Name == "Done" {
+						d2 = in
+					}
+				}
+			})
+			if d2 != nil || r2 != nil || s2 != nil {
+				done, recheck, store = d2, r2, s2
+				pfn, postStart = g, entryPoint(g)
+				fa = newFA(p, r, g)
+				held = heldAt(g)
+			}
+		}
+	}
 	if done == nil {
 		r.Fail("D2-single-flight", key+":waiters-signalled", p.Pos(fetch.Pos()), "waiters are never signalled (no WaitGroup.Done)")
 	} else {
-		fa.noPath("D2-single-flight", "waiters-signalled", pointOf(fetch), isReturn, instrIs(done), nil, "wg.Done on every path after the fetch", "a path after the fetch returns without signalling the waiting callers: they block forever")
+		fa.noPath("D2-single-flight", "waiters-signalled", postStart, isReturn, instrIs(done), nil, "wg.Done on every path after the fetch", "a path after the fetch returns without signalling the waiting callers: they block forever")
 	}
 	if recheck == nil {
 		r.Fail("D2-single-flight", key+":pending-removed", p.Pos(fetch.Pos()), "the pending entry is never removed after the fetch")
 	} else {
-		fa.noPath("D2-single-flight", "pending-removed", pointOf(fetch), isReturn, instrIs(recheck), nil, "the pending entry is re-examined (and removed) on every path after the fetch", "a path after the fetch (e.g. the failure path) returns without removing the finished call from the pending table: every later lookup of that key gets the stale result without fetching again")
+		fa.noPath("D2-single-flight", "pending-removed", postStart, isReturn, instrIs(recheck), nil, "the pending entry is re-examined (and removed) on every path after the fetch", "a path after the fetch (e.g. the failure path) returns without removing the finished call from the pending table: every later lookup of that key gets the stale result without fetching again")
 		hasDel := false
-		forEachInstr(fn, func(_ *ssa.BasicBlock, _ int, in ssa.Instruction) {
+		forEachInstr(pfn, func(_ *ssa.BasicBlock, _ int, in ssa.Instruction) {
 			if c := callOf(in); c != nil && isCallToC(c, "builtin", "delete") && loadsField(c.Args[0], "RequestCache", "calls") {
 				hasDel = true
 			}
